@@ -11,6 +11,10 @@ attributed (and is therefore reported as a violation).
     F131  conditioned functional assignment `s = Sin(u) | cond : s`: the new function value and the
           default share the symbol `s`, the condition is lost.  Cure: with a separate placeholder
           for the new value the closed forms agree with the oracle.
+    F133  derivative of a Piecewise transform at its special point (Beta.cf is
+          Piecewise((generic, t != 0), (1, True)); `diff` differentiates the constant branch to 0, so
+          the frequency-0 term phi^(a)(0) = i^a E[X^a] of get_trig_moment is dropped for a >= 1).
+          Cure: with the derivative at 0 taken as the limit of the generic branch the values agree.
     F132  decimal literals that are not converted to rationals (argument of Sin/Cos/Exp, distribution
           parameters such as `pi/4 - 0.1`) stay machine floats: results carry ~1e-13..1e-17 errors
           also in exact mode.  Cure: with the literals converted the values agree.
@@ -163,5 +167,34 @@ def attr_f132(prop, record):
         if _program_agrees(record, ["floats"]):
             return ("decimal literal kept as a machine float (argument of a functional assignment or a parameter "
                     f"like pi/4 - 0.1): polar {record.get('actual')}, true {record.get('expected_at')}")
+        return None
+    return None
+
+
+def attr_f133(prop, record):
+    kind = record.get("kind")
+    mp = L._mp()
+    if kind == "moment":
+        pw = record["powers"]
+        if record.get("family") != "Beta" or pw.get("Id", 0) < 1 or "Exp" in pw:
+            return None
+        if (pw.get("Sin", 0) + pw.get("Cos", 0)) % 2 != 0 or record.get("expected") is None:
+            return None
+        res = _run("polar_moment_repaired", {"family": record["family"], "params": record["params"], "powers": pw,
+                                             "mode": record["mode"], "repairs": ["freq0"]})
+        if not res or not res.get("ok"):
+            return None
+        exp = mp.mpf(record["expected"])
+        if L.close((mp.mpf(res["re"]), mp.mpf(res["im"])), exp, abs(exp), record["mode"]):
+            return (f"get_func_moment(Beta({', '.join(record['params'])}), {pw}) drops the frequency-0 term "
+                    f"(derivative of the Piecewise cf at t = 0 is taken of the constant branch): "
+                    f"returned {record.get('actual')}, true value {record.get('expected')}")
+        return None
+    if kind == "program":
+        if "Beta(" not in record["text"]:
+            return None
+        if _program_agrees(record, ["freq0"]):
+            return ("Beta draw with X**a (a >= 1) times an even power of Sin/Cos: the frequency-0 term is dropped "
+                    f"(polar {record.get('actual')}, true {record.get('expected_at')})")
         return None
     return None
